@@ -112,6 +112,6 @@ def run(check: Check) -> None:
     fams += tri
     cases = [(tuple(f), w) for f in fams for w in WRT]
     run_cases(check, cases, _case)
-    from . import ch_c20
+    from . import ch_c20_run
 
-    ch_c20.run(check)
+    ch_c20_run.run_c20(check, thorough)
